@@ -12,6 +12,7 @@
  * length <= POSIX_MAXLEN and requires equal acceptance and, on acceptance, equal fields - with the result
  * structure filled with arbitrary garbage beforehand, so a field the code forgets to set is a failure.
  * This is a BOUNDED check (all strings up to POSIX_MAXLEN bytes, loops unwound with unwinding assertions). */
+size_t gs_n;   /* ghost (contracts/posix.h) */
 #ifndef POSIX_MAXLEN
 #define POSIX_MAXLEN 24
 #endif
